@@ -4,7 +4,8 @@ C17 — lemmas for `Sqfs/Model/C17SortTree.lean`: the sort commutes with forgett
 import Sqfs.Model.C17SortTree
 import Sqfs.Proofs.Sort
 namespace Sqfs.C17SortTree
-open Sqfs.Sort Sqfs.FsTree
+open Sqfs.Sort
+open Sqfs.FsTree hiding FileEnt sortFileList sortFiles
 
 theorem applyLine_paths (mt : Matcher) (l : SortLine) (fs : List FileEnt) :
     (applyLine mt l fs).map (·.path) = fs.map (·.path) := by
